@@ -39,33 +39,36 @@ Proof. exact read_gated_refuted. Qed.
 Print Assumptions C11_read_gated_refuted.
 
 (* write_gated.  A Write Request / Write Command for an attribute the bearer may not write
-   (not WRITEABLE, or the link does not meet the write requirement, or the write callback
-   refuses) leaves the database unchanged; the request is answered with an Error Response
-   naming the handle, the command with nothing.  Hypothesis: the attribute is not a D11a
+   (not WRITEABLE, or the link does not meet the write requirement, or the write function
+   refuses with ATT_Error or raises anything else) leaves the database and the subscription
+   state unchanged; the request is answered with an Error Response (naming the handle, or
+   handle 0 / UNLIKELY_ERROR when the write function raised), the command with nothing.  Hypothesis: the attribute is not a D11a
    witness (not WRITEABLE yet accepted because no link requirement refuses it). *)
 Theorem C11_write_gated : forall st x y v a,
   find_attr (x + 256 * y) (s_db st) = Some a ->
   may_write (s_b st) a = false -> d11a_write_witness (s_b st) a = false ->
-  (exists st' c, rx st 18 (x :: y :: v) = Some (st', [err_rsp 18 (x + 256 * y) c]) /\ s_db st' = s_db st) /\
-  (exists st', rx st 82 (x :: y :: v) = Some (st', []) /\ s_db st' = s_db st).
+  (exists st' hh c, rx st 18 (x :: y :: v) = Some (st', [err_rsp 18 hh c]) /\
+                    s_db st' = s_db st /\ s_subs st' = s_subs st) /\
+  (exists st', rx st 82 (x :: y :: v) = Some (st', []) /\ s_db st' = s_db st /\ s_subs st' = s_subs st).
 Proof. exact write_gated_rx. Qed.
 Print Assumptions C11_write_gated.
 
 Theorem C11_write_gated_refuted :
   exists b db h v a,
-    find_attr h db = Some a /\ may_write b a = false /\ h_write_cmd b db h v <> db.
+    find_attr h db = Some a /\ may_write b a = false /\ fst (h_write_cmd b db [] h v) <> db.
 Proof. exact write_gated_refuted. Qed.
 Print Assumptions C11_write_gated_refuted.
 
 (* a Write Request answered with anything but a Write Response changed nothing (no
    hypothesis), and no PDU other than Write Request / Write Command changes the database *)
-Theorem C11_write_error_unchanged : forall b db op h v,
-  snd (h_write b db op h v) <> [OP_WRITE_RSP] -> fst (h_write b db op h v) = db.
+Theorem C11_write_error_unchanged : forall b db subs op h v,
+  snd (h_write b db subs op h v) <> [OP_WRITE_RSP] -> fst (h_write b db subs op h v) = (db, subs).
 Proof. exact write_error_unchanged. Qed.
 Print Assumptions C11_write_error_unchanged.
 
 Theorem C11_only_writes_change_db : forall st opc ps st' out,
-  opc <> 18 -> opc <> 82 -> rx st opc ps = Some (st', out) -> s_db st' = s_db st.
+  opc <> 18 -> opc <> 82 -> rx st opc ps = Some (st', out) ->
+  s_db st' = s_db st /\ s_subs st' = s_subs st.
 Proof. exact rx_db_unchanged. Qed.
 Print Assumptions C11_only_writes_change_db.
 
@@ -83,8 +86,8 @@ Print Assumptions C11_refusal_code_read.
 Theorem C11_refusal_code_write : forall st x y v a c,
   find_attr (x + 256 * y) (s_db st) = Some a -> write_refusal (s_b st) (a_perm a) = Some c ->
   len v <= 512 ->
-  rx st 18 (x :: y :: v) = Some (set_db st (s_db st), [err_rsp 18 (x + 256 * y) c]) /\
-  rx st 82 (x :: y :: v) = Some (set_db st (s_db st), []).
+  rx st 18 (x :: y :: v) = Some (set_dbs st (s_db st, s_subs st), [err_rsp 18 (x + 256 * y) c]) /\
+  rx st 82 (x :: y :: v) = Some (set_dbs st (s_db st, s_subs st), []).
 Proof. exact write_refusal_rx. Qed.
 Print Assumptions C11_refusal_code_write.
 
@@ -92,9 +95,9 @@ Print Assumptions C11_refusal_code_write.
    the ranged / multi-handle reads that reach it. *)
 Example C11_nonvacuous :
   let b := mkBearer 23 false false false in
-  let db v := [mkAttr 1 [0; 40] 1 [170; 170] 5 0 0;
-               mkAttr 2 [3; 40] 1 [10; 3; 0; 17; 17] 3 0 0; mkAttr 3 [17; 17] 1 [1; 2; 3] 3 0 0;
-               mkAttr 4 [3; 40] 1 [10; 5; 0; 34; 34] 5 0 0; mkAttr 5 [34; 34] 5 v 5 0 0] in
+  let db v := [mkAttr 1 [0; 40] 1 [170; 170] 5 0 0 0;
+               mkAttr 2 [3; 40] 1 [10; 3; 0; 17; 17] 3 0 0 0; mkAttr 3 [17; 17] 1 [1; 2; 3] 3 0 0 0;
+               mkAttr 4 [3; 40] 1 [10; 5; 0; 34; 34] 5 0 0 0; mkAttr 5 [34; 34] 5 v 5 0 0 0] in
   d11a_free_read b (db [7]) = true /\
   option_map snd (rx (init (db [7]) b 517) 8 [1; 0; 255; 255; 34; 34]) = Some [[1; 8; 5; 0; 15]] /\
   option_map snd (rx (init (db [7]) b 517) 6 [1; 0; 255; 255; 34; 34; 7]) = Some [[1; 6; 1; 0; 10]] /\
